@@ -120,7 +120,6 @@ Fixpoint resolve (fuel : nat) (s : store) (f : nfmt) (kind : N) (h : name) : kli
     end
   end.
 
-Fixpoint pow_N (b : N) (e : nat) : N := match e with O => 1%N | S e' => (b * pow_N b e')%N end.
 
 (** checkRoot (lib.go:660-690): strictly ascending keys, every layer >= height *)
 Fixpoint check_keys (bf : N) (h : nat) (last : option key) (es : list (entry key val)) : M unit :=
